@@ -173,7 +173,8 @@ func (s *c21Sat) check(fr *c21Frame, e ast.Expr, use core.Point, depth int) c21S
 		if !s.view.isVar(fr2, d.X, s.view.threshold) {
 			return c21SatVerdict{pos: d.Pos(), why: "the wait is a difference whose minuend is not the threshold: " + exprStr(d)}
 		}
-		edges := f.GuardEdges(s.noWrapFact(fr2, d, v))
+		// (a wrap-around test may be named before it is branched on: c21_cond.go)
+		edges := c21CondEdges(f, s.noWrapFact(fr2, d, v))
 		q := core.PathQuery{F: f, From: f.Entry(), Target: core.PointSet(use), AvoidEdge: edges}
 		if from != nil {
 			q.From, q.FromAfter, q.Avoid = *from, true, core.PointSet(others...)
